@@ -161,6 +161,8 @@ def handle (s : DHG) (j : Json) : DHG × Json :=
   match getStr? j "op" with
   | some "reset" => (DHG.empty, respond DHG.empty .ok)
   | some "snapshot" => (s, respond s .ok)
+  -- a request whose arguments are outside the model's ID domain (uuid / float / bytes / huge-int IDs …): no answer
+  | some "outside-model" => (s, Json.mkObj [("out", "unmodelled")])
   | some "pickle" => cloneBy s (some .pickle)
   | some "construct" => cloneBy s ((getAttrs? j "attr").map .ctor)
   | _ =>
